@@ -50,6 +50,12 @@ SearchLaws ==
           LET n == SubSeq(s, k + 1, k + m)  i == FindSub(s, n)
           IN  i # NotFound /\ i <= k /\ MatchAt(s, n, i) /\ \A j \in 0..(i - 1) : ~MatchAt(s, n, j)
     /\ FindSub(s, Append(s, 0)) = NotFound
+    /\ \A c \in Alphabet :
+          LET ps == PositionsOf(s, c)
+          IN  /\ Len(ps) = CountByte(s, c)
+              /\ (Len(ps) > 0) => (ps[1] = FindByte(s, c) /\ ps[Len(ps)] = FindLastByte(s, c))
+              /\ (Len(ps) = 0) => FindLastByte(s, c) = NotFound
+              /\ ps = AllAnyOf(s, <<c>>)
     /\ \A c \in Alphabet : \A d \in Alphabet :
           LET i == FindAnyOf(s, <<c, d>>)  a == FindByte(s, c)  b == FindByte(s, d)
           IN  i = (IF a = NotFound THEN b ELSE IF b = NotFound THEN a ELSE Min2(a, b))
@@ -67,6 +73,7 @@ CopyFillLaws ==
 (* the check value of the catalogue of parametrised CRC algorithms: CRC-32C("123456789") = E3069283 *)
 ASSUME Crc32c(<<49, 50, 51, 52, 53, 54, 55, 56, 57>>) = <<58118, 37507>>
 ASSUME Crc32c(<<>>) = <<0, 0>>
+ASSUME PopCountBytes(<<255, 1, 0, 128, 85>>) = 14
 CrcLaws ==
     /\ \A k \in 0..Len(s) :
           /\ Crc32c(s) = Not32(CrcUpdate(CrcUpdate(CrcInit, Pre(k)), Suf(k)))
@@ -102,6 +109,12 @@ Utf8Laws ==
     \* validity is compositional on both sides of an ASCII byte
     /\ Utf8Valid(s) => Utf8Valid(<<65>> \o s \o <<65>>)
     /\ Utf8Valid(s) => Utf8CharCount(s) <= Len(s) /\ 4 * Utf8CharCount(s) >= Len(s)
+    \* decoding a valid string yields one scalar value per character, and re-encodable UTF-16
+    /\ Utf8Valid(s) =>
+          LET d == Utf8Decode(s)
+          IN  /\ Len(d) = Utf8CharCount(s)
+              /\ \A j \in 1..Len(d) : d[j] \in 0..1114111 /\ ~(d[j] >= 55296 /\ d[j] <= 57343)
+              /\ Len(Utf16Enc(d)) = Len(d) + Cardinality({j \in 1..Len(d) : d[j] >= 65536})
 (* named witnesses of the classes of the property text *)
 ASSUME ~Utf8Valid(<<192, 128>>)                  \* overlong U+0000
 ASSUME ~Utf8Valid(<<193, 191>>)                  \* overlong U+007F
@@ -119,6 +132,8 @@ ASSUME Utf8Valid(<<244, 143, 191, 191>>)         \* U+10FFFF
 ASSUME Utf8Valid(<<240, 144, 128, 128>>)         \* U+10000
 ASSUME Utf8Valid(<<194, 128>>) /\ Utf8Valid(<<224, 160, 128>>)
 ASSUME Utf8CharCount(<<72, 195, 169, 226, 130, 172, 240, 159, 166, 128>>) = 4
+ASSUME Utf8Decode(<<72, 195, 169, 226, 130, 172, 240, 159, 166, 128>>) = <<72, 233, 8364, 129408>>      \* "H\u00e9\u20ac\U0001F980"
+ASSUME Utf16Enc(<<72, 233, 8364, 129408>>) = <<72, 233, 8364, 55358, 56704>>
 
 (* ---------------------------------------------------------------- codecs *)
 CodecLaws ==
